@@ -245,6 +245,58 @@ pub fn run(args: &Args) {
             }
         }
     }
+    // an entry header that straddles a 128 KiB mark of the decompressed stream (where block decoders hand out short
+    // reads), for every codec; and archive names up to the longest the format allows (4095 bytes + NUL)
+    {
+        let mut special: Vec<(String, gen_::Cfg)> = vec![];
+        let ks: Vec<usize> = if thorough { (1..=27).map(|x| 4 * x).collect() } else { vec![4, 52, 104, 108] };
+        for ct in ["gzip", "zstd", "xz", "bzip2", "none"] {
+            for &k in &ks {
+                let mut cfg = gen_::rand_cfg(&mut rng, 0, 0);
+                cfg.compression = Some((ct.into(), None));
+                cfg.files.clear();
+                let mut used = vec![];
+                // "./b/first" + NUL = 10 bytes: data starts at 120, the next header at 120 + pad4(len)
+                for (dest, len) in [("/b/first", 131072 - k - 120), ("/b/second", 10 + k % 7)] {
+                    let mut f = gen_::rand_file(&mut rng, &mut used, 10);
+                    f.dest = dest.into(); f.len = len; f.compressible = k % 8 == 0; f.mode = Some(0o100644); f.link = None;
+                    cfg.files.push(f);
+                }
+                special.push((format!("boundary:{ct}:{k}"), cfg));
+            }
+        }
+        for total in [4090usize, 4093, 4094, 4095] {
+            let mut cfg = gen_::rand_cfg(&mut rng, 0, 0);
+            cfg.files.clear();
+            let mut used = vec![];
+            let mut f = gen_::rand_file(&mut rng, &mut used, 40);
+            // archive name "." + dest has `total` bytes
+            let mut dest = String::new();
+            while dest.len() + 201 < total - 1 { dest.push('/'); dest.push_str(&"d".repeat(200)); }
+            dest.push('/');
+            let rest = total - 1 - dest.len();
+            dest.push_str(&"n".repeat(rest));
+            f.dest = dest; f.mode = Some(0o100644); f.link = None;
+            cfg.files.push(f);
+            let mut g = gen_::rand_file(&mut rng, &mut used, 40);
+            g.dest = "/zz/after".into(); g.mode = Some(0o100644); g.link = None;
+            cfg.files.push(g);
+            special.push((format!("longname:{total}"), cfg));
+        }
+        for (origin, cfg) in special {
+            let mut paths: Vec<Vec<u8>> = cfg.files.iter().map(|f| f.dest.trim_start_matches('.').as_bytes().to_vec()).collect();
+            paths.sort();
+            match guarded(|| gen_::build(&cfg, &wd)) {
+                Ok(Ok(p)) => {
+                    let mut bytes = vec![];
+                    p.write(&mut Plain(&mut bytes)).unwrap();
+                    t.emit(files_event(&bytes, &origin, true, Some(paths)));
+                }
+                Ok(Err(e)) => { t.emit(json!({"event":"BuildErr","origin":origin,"err":err_name(&e)})); }
+                Err(m) => { t.emit(json!({"event":"Panic","origin":origin,"msg":m})); }
+            }
+        }
+    }
     // random configurations (symlinks, directories, flags ...)
     for i in 0..args.num("n", 40) {
         let cfg = gen_::rand_cfg(&mut rng, 5, 5000);
